@@ -65,7 +65,7 @@ Real(u, vp) == UCfg[u].base \o vp
 \* c0: the working directory at the instant the command line was read (where its path conditions are evaluated)
 NoH == [v |-> "", a |-> NoArg, x |-> "", n |-> 0, pc |-> "", port |-> 0, prio |-> 0, viewed |-> {}, failed |-> FALSE, c0 |-> <<>>]
 NoW == [v |-> "", p |-> NoPath, st |-> "", off |-> 0, sock |-> FALSE, fopen |-> FALSE, fdone |-> FALSE,
-        seeked |-> FALSE, pos |-> 0, dl |-> 0, listed |-> FALSE, had |-> FALSE, ub |-> ""]
+        seeked |-> FALSE, pos |-> 0, dl |-> 0, listed |-> FALSE, had |-> FALSE, ub |-> "", mv |-> FALSE]
 
 InitSess == [ph |-> "idle", ceof |-> FALSE, user |-> "", logged |-> FALSE, acq |-> FALSE,
              cwd |-> <<>>, rnfr |-> NoPath, rest |-> 0, ttype |-> "", lsn |-> 0, dc |-> "none", xd |-> 0,
@@ -157,7 +157,9 @@ DataConnect(s, t) ==
      ELSE IF r.w.v # "" /\ r.w.st = "wait"
        THEN Upd(s, [r EXCEPT !.w.st = "run", !.w.sock = TRUE, !.w.had = TRUE, !.cdata = TRUE, !.din = <<>>, !.dineof = FALSE,
                              !.w.dl = IF SockT > 0 THEN t + SockT ELSE 0])
-     ELSE Upd(s, [r EXCEPT !.dc = "parked", !.cdata = TRUE, !.din = <<>>, !.dineof = FALSE])
+     \* (an upload worker that has already received everything, end of file included, keeps that knowledge: mv)
+     ELSE Upd(s, [r EXCEPT !.dc = "parked", !.cdata = TRUE, !.din = <<>>, !.dineof = FALSE,
+                           !.w.mv = @ \/ (r.w.v \in {"stor", "appe"} /\ r.w.st = "run" /\ r.din = <<>> /\ r.dineof)])
   /\ UNCHANGED <<tree, uused, used, pool, table, srv>>
 
 DataSend(s, t, data) ==
@@ -341,7 +343,7 @@ Content(p) == IF IsFileT(tree, p) THEN tree.f[p] ELSE <<>>
 
 \* a running worker may release / finish only when all data has been moved
 Moved(r) ==
-  CASE r.w.v \in {"stor", "appe"} -> r.din = <<>> /\ r.dineof /\ (r.w.fopen \/ r.w.fdone)
+  CASE r.w.v \in {"stor", "appe"} -> (r.w.mv \/ (r.din = <<>> /\ r.dineof)) /\ (r.w.fopen \/ r.w.fdone)
     [] r.w.v = "retr" -> (r.w.fopen \/ r.w.fdone) /\ r.w.pos >= Len(Content(r.w.p)) /\ (r.w.off = 0 \/ r.w.seeked)
     [] OTHER -> r.w.listed
 TimedOut(r, t) == SockT > 0 /\ r.w.st = "run" /\ r.w.dl > 0 /\ t = r.w.dl
